@@ -27,9 +27,12 @@ if [ "$src" != "$V/seeded/$id" ]; then cp "$src/patch.diff" "$src/demo_test.go" 
 detected=""
 for p in $props; do
   out=$(cd "$V" && VERIF_REPO="$S" VERIF_BUDGET_S=${SEED_BUDGET_S:-30} ./check $p quick 2>&1); e=$?
-  rule=$(echo "$out" | grep -m1 '^violation:' | sed 's/^violation: //' | cut -c1-200)
-  echo "  $p exit=$e $rule"
-  detected="$detected{\"property\":\"$p\",\"exit\":$e,\"first\":$(python3 -c "import json,sys;print(json.dumps(sys.argv[1]))" "$rule")},"
+  # what the seeded SEARCH found, and what the regression corpus found, are kept apart: the corpus
+  # holds the trace that caught this very change earlier, so a corpus hit says nothing about the search
+  rule=$(echo "$out" | grep '^violation:' | grep -v 'regression corpus' | head -1 | sed 's/^violation: //' | cut -c1-200)
+  crule=$(echo "$out" | grep '^violation:' | grep 'regression corpus' | head -1 | sed 's/^violation: //' | cut -c1-200)
+  echo "  $p exit=$e search=[$rule] corpus=[$crule]"
+  detected="$detected{\"property\":\"$p\",\"exit\":$e,\"first\":$(python3 -c "import json,sys;print(json.dumps(sys.argv[1]))" "$rule"),\"by_corpus\":$(python3 -c "import json,sys;print(json.dumps(sys.argv[1]))" "$crule")},"
 done
 python3 - "$V/seeded/$id/meta.json" "$id" "$confirmed" "$suite" "$with" "$without" "[${detected%,}]" "$props" <<'PY'
 import json,sys,os
